@@ -145,7 +145,7 @@ PROPS = {
                   'extracted reference scope model (spec/CssSem.v scope_events) as oracle for the implementation\'s handler invocation log; extraction-based correspondence run',
         level_text='Theorems C05_handler_counts_track_open_matched_elements and C05_scoped_handler_active_iff_matched_element_open: for every selector set, handler scripts, failure point, configuration, document and chunking, '
                    'in every state reached through successful writes the activation count of each comment/text handler = its initial count + the number of (open element, matched selector) pairs that own it, so a selector-scoped '
-                   'handler is active exactly while a matched element is on the open-element stack. C05_end_tag_pops_exactly_the_closed_elements / C05_end_tag_stops_exactly_the_closed_elements: on every stack that follows the tag-induced tree (every reachable one, C04) an end tag deactivates exactly the open elements it closes in the tree, each once, and a stray end tag nothing; with C04_stack_items_hold_the_ast_frontier each open element\'s matched set is its CSS match set. Partial: that the end-tag handler then runs at that end tag token, registration order and the '
+                   'handler is active exactly while a matched element is on the open-element stack. C05_end_tag_pops_exactly_the_closed_elements / C05_end_tag_stops_exactly_the_closed_elements: on every stack that follows the tag-induced tree (every reachable one, C04) an end tag deactivates exactly the open elements it closes in the tree, each once, and a stray end tag nothing; with C04_stack_items_hold_the_ast_frontier each open element\'s matched set is its CSS match set, and C05_scoped_handlers_follow_css_matching_on_the_tree (proofs/ScopeCss.v) puts the two together at the controller: after every sequence of start/end tags a selector-scoped text/comment handler is active exactly when some open element of the induced tree is matched (CssSem) by a selector that owns it. Partial: that the end-tag handler then runs at that end tag token, registration order and the '
                    'end handler are decided by comparing the complete handler-invocation sequence of the real rewriter with the extracted reference scope model (text chunks collapsed per node; end-tag handlers of one end tag and '
                    'end handlers compared as sets) and by the correspondence run.',
         level_note='Trusted as C04.'),
